@@ -27,9 +27,10 @@ def e_Call(self: Engine, node: ast.Call, st: State):
     if d == "warnings.warn":
         self.dropped.add("warnings.warn")
         return [(OK, st, NONE)]
-    if any(isinstance(a, ast.Starred) for a in node.args):
-        raise Unsupported("star-args in call")
-    # `**mapping` is only handed through to callees with an assumed handler (it arrives under the key "**")
+    star = [a for a in node.args if isinstance(a, ast.Starred)]
+    if star and (len(star) > 1 or node.args[-1] is not star[0]):
+        raise Unsupported("star-args in call (only one, in last position)")
+    # `*seq` (last positional) and `**mapping` are only handed through to callees with an assumed handler (it arrives under the key "**")
 
     # special forms that must see the AST
     if isinstance(node.func, ast.Name) and node.func.id in ("next", "any", "all", "list", "set", "sorted", "sum", "frozenset", "tuple", "max", "min") \
@@ -41,11 +42,14 @@ def e_Call(self: Engine, node: ast.Call, st: State):
             n = len(node.args)
             args = argvals[:n]
             kwargs = {(k.arg if k.arg is not None else "**"): v for k, v in zip(node.keywords, argvals[n:])}
+            if star:
+                kwargs["*"] = args[-1]
+                args = args[:-1]
             # which arguments are plain local names (needed when a contract says the callee mutates that argument)
             self._arg_locals = ([a.id if isinstance(a, ast.Name) else None for a in node.args],
                                 {k.arg: (k.value.id if isinstance(k.value, ast.Name) else None) for k in node.keywords})
             return self.call_value(s2, fv, args, kwargs, node)
-        return bind(self.eval_many(list(node.args) + [k.value for k in node.keywords], s), with_args)
+        return bind(self.eval_many([(a.value if isinstance(a, ast.Starred) else a) for a in node.args] + [k.value for k in node.keywords], s), with_args)
 
     if isinstance(node.func, ast.Attribute):
         def with_recv(s, recv):
@@ -60,6 +64,11 @@ def e_Call(self: Engine, node: ast.Call, st: State):
 
 
 def call_value(self: Engine, st, fv, args, kwargs, node=None):
+    if isinstance(fv, ObjRef):          # calling an object: its shape names the contract of __call__
+        ckey = getattr(self.reg.shapes.get(fv.shape), "callable", None)
+        if ckey and ckey in self.reg.contracts and self.reg.contracts[ckey].handler:
+            return self.reg.contracts[ckey].handler(self, st, fv, args, kwargs)
+        raise Unsupported(f"call of an object of shape {fv.shape}")
     if isinstance(fv, BuiltinVal):
         return self.builtin_call(st, fv.name, args, kwargs, node)
     if isinstance(fv, Native):
